@@ -42,6 +42,7 @@ _st = {}
 
 
 def setup_worker():
+    tdoc.Model.CCALL_ARG_CALLER = True  # follow Mako as it is here; the quirk is C05's finding, not C13's subject
     import builtins
 
     import mako.cache
